@@ -350,6 +350,13 @@ fn boundary_values(unit: u128) -> Vec<u128> {
     for k in 0..=21u32 {
         bs.push(10u128.pow(k));
     }
+    // count x any unit of time at the edge of 32/63/64 bits (arithmetic on count*unit that is not
+    // part of the emitted constant)
+    for tu in [60u128, 1440, 3600, 86_400, 604_800] {
+        for top in [1u128 << 31, 1 << 32, 1 << 63, 1 << 64] {
+            bs.push(top / tu);
+        }
+    }
     bs.sort();
     bs.dedup();
     for b in bs {
